@@ -26,6 +26,7 @@ func c04(c *Ctx) {
 	c04R4(c, "R4")
 	c03R7(c, "R5")
 	sStale(c, "R6/S-STALE", "(*Raft).appendEntries")
+	sState(c, "R7/S-STATE")
 }
 
 // prevCheckTracks: tracks of the previous-entry check in appendEntries.
